@@ -63,7 +63,7 @@ def run(ctx, impl_only=False):
             case = {'t1': repr(t1), 't2': repr(t2), 'zip': zip_, 'thr': thr}
             ctx.evaluations += 1
             try:
-                dom = C01.in_domain(t1, t2, **kw)[0] and C01.in_domain(t2, t1, **kw)[0]
+                dom = C01.in_domain(t1, t2, **kw)[0] and C01.in_domain(t2, t1, **kw)[0] and not C01.set_member_alias(t1, t2)
             except Exception:
                 dom = True
             ctx.count('dom' if dom else 'out_of_domain')
@@ -103,14 +103,15 @@ def run(ctx, impl_only=False):
                     ctx.count('sequence_len_%d' % len(seq))
                 if not (strict_eq(t1, s1) and strict_eq(t2, s2)):
                     ctx.violate(case, 'an input was modified')
-            # non-bidirectional refuses subtraction
-            try:
-                copy.deepcopy(t2) - Delta(dd)
-                ctx.violate(case, 'a non-bidirectional delta accepted subtraction')
-            except ValueError:
-                ctx.count('refused')
-            except Exception as e:
-                ctx.violate(case, 'non-bidirectional subtraction raised %s, not ValueError' % type(e).__name__)
+            # non-bidirectional refuses subtraction, whatever the other options are
+            for okw in ({}, {'always_include_values': True}, {'bidirectional': False, 'raise_errors': True}, {'always_include_values': True, 'force': True}):
+                try:
+                    copy.deepcopy(t2) - Delta(dd, **okw)
+                    ctx.violate(dict(case, delta_options=okw), 'a non-bidirectional delta accepted subtraction')
+                except ValueError:
+                    ctx.count('refused')
+                except Exception as e:
+                    ctx.violate(dict(case, delta_options=okw), 'non-bidirectional subtraction raised %s, not ValueError' % type(e).__name__)
             # single-location corruptions
             ddiff = mk().diff
             cpaths = [p for c in ('values_changed', 'type_changes') for p in ddiff.get(c, {})]
@@ -128,13 +129,21 @@ def run(ctx, impl_only=False):
                         ctx.count('corruption_unreachable'); continue
                     ctx.evaluations += 1
                     c2 = dict(case, corrupted=p, corrupted_with=kind)
-                    try:
-                        copy.deepcopy(base) + mk(raise_errors=True)
-                        ctx.violate(c2, 'raise_errors=True: a base whose value at %s is not the recorded old value was accepted' % p)
-                    except DeltaError:
-                        ctx.count('corruption_raised:' + kind)
-                    except Exception as e:
-                        ctx.count('corruption_raised_other:' + type(e).__name__)
+                    strict = mk(raise_errors=True)          # one Delta object, offered the same wrong base again and again (and the right one in between)
+                    for attempt in (1, 2, 3):
+                        try:
+                            copy.deepcopy(base) + strict
+                            ctx.violate(dict(c2, attempt=attempt), 'raise_errors=True: a base whose value at %s is not the recorded old value was accepted (attempt %d with the same Delta)' % (p, attempt))
+                        except DeltaError:
+                            ctx.count('corruption_raised:' + kind)
+                        except Exception as e:
+                            ctx.count('corruption_raised_other:' + type(e).__name__)
+                        if attempt == 2 and dom:          # inside Dom_C01 (findings F4b, F4c, F45 are outside)
+                            try:
+                                if not DL.py_eq_t(copy.deepcopy(t1) + strict, t2):
+                                    ctx.violate(dict(c2, attempt=attempt), 'after a refused base the same Delta no longer maps t1 to t2')
+                            except Exception:
+                                pass
                     out, _ = DL.apply_outcome(lambda: copy.deepcopy(base) + mk())
                     if not (out.startswith('RAISED') or out.endswith('errs=1')):
                         ctx.violate(c2, 'raise_errors=False: the mismatch at %s was accepted silently' % p)
@@ -158,7 +167,7 @@ def run(ctx, impl_only=False):
             return DL.py_eq_t(copy.deepcopy(t2) - d, t1) and DL.py_eq_t(copy.deepcopy(t1) + d, t2)
         except Exception:
             return False
-    wit = {'F4b': lambda: inv([([], {1})], [([], {1, 'b'})]), 'F4c': lambda: inv([((1, 2), 0)], [((1, 3), 0)])}
+    wit = {'F4b': lambda: inv([([], {1})], [([], {1, 'b'})]), 'F4c': lambda: inv([((1, 2), 0)], [((1, 3), 0)]), 'F45': lambda: inv({1}, {True})}
     for fid, fn in wit.items():
         ctx.evaluations += 1
         ok = fn()
